@@ -1346,9 +1346,7 @@ class LangServer:
             file_obj.ast.resolve_includes(self.workspace)
             # Update inheritance/links of all files: inherited components and
             # procedure links cached in other files point into the old syntax tree
-            self.link_version = (self.link_version + 1) % 1000
-            for _, tmp_file in self.workspace.items():
-                tmp_file.ast.resolve_links(self.obj_tree, self.link_version)
+            self._resolve_workspace_links()
         elif file_obj.preproc:
             self._forget_file_pp_defs(file_obj)
             file_obj.preprocess(pp_defs=self.pp_defs)
@@ -1385,9 +1383,7 @@ class LangServer:
                 for _, tmp_file in self.workspace.items():
                     tmp_file.ast.resolve_includes(self.workspace, path=filepath)
                 # Re-resolve links/inheritance that pointed into the removed file
-                self.link_version = (self.link_version + 1) % 1000
-                for _, tmp_file in self.workspace.items():
-                    tmp_file.ast.resolve_links(self.obj_tree, self.link_version)
+                self._resolve_workspace_links()
             return
         did_change, err_str = self.update_workspace_file(
             filepath, read_file=True, allow_empty=did_open
@@ -1402,9 +1398,7 @@ class LangServer:
             file_obj = self.workspace.get(filepath)
             file_obj.ast.resolve_includes(self.workspace)
             # Update inheritance/links
-            self.link_version = (self.link_version + 1) % 1000
-            for _, file_obj in self.workspace.items():
-                file_obj.ast.resolve_links(self.obj_tree, self.link_version)
+            self._resolve_workspace_links()
         if not self.disable_diagnostics:
             self.send_diagnostics(uri)
 
@@ -1478,6 +1472,18 @@ class LangServer:
             if obj is None:
                 break
         return []
+
+    def _resolve_workspace_links(self) -> None:
+        """Update inheritance and links of all files in the workspace.
+
+        Inheritance is resolved for every file before any link is: links such as
+        ASSOCIATE names bound to inherited components need the inherited
+        components of types in other files, whatever the order of the files"""
+        self.link_version = (self.link_version + 1) % 1000
+        for file_obj in self.workspace.values():
+            file_obj.ast.resolve_inheritance(self.obj_tree, self.link_version)
+        for file_obj in self.workspace.values():
+            file_obj.ast.resolve_links(self.obj_tree, self.link_version)
 
     def _remove_global_obj(self, key: str, filepath: str) -> None:
         """Remove a top-level object from the object tree, unless the name is by
@@ -1600,9 +1606,7 @@ class LangServer:
         for _, file_obj in self.workspace.items():
             file_obj.ast.resolve_includes(self.workspace)
         # Update inheritance/links
-        self.link_version = (self.link_version + 1) % 1000
-        for _, file_obj in self.workspace.items():
-            file_obj.ast.resolve_links(self.obj_tree, self.link_version)
+        self._resolve_workspace_links()
 
     def serve_exit(self, request: dict) -> None:
         # Exit server
